@@ -244,8 +244,11 @@ def run_property(prop, tier, seed, rules_mod, repo=None, quiet=False, selftest=T
         counts = {}
         for o in obs:
             counts[o.rule] = counts.get(o.rule, 0) + 1
+        failing = set(o.rule for o in obs if not o.ok)
         for rule, n in ctx.floors.items():
-            if counts.get(rule, 0) < n:
+            # a rule that already reports a violation is not additionally "below floor":
+            # the obligations that depended on the violated construct legitimately vanish
+            if counts.get(rule, 0) < n and rule not in failing:
                 raise AnalysisBroken('rule %s matched %d instance(s), below the floor of %d confirmed by hand; '
                                      'the anchor it binds to has changed shape' % (rule, counts.get(rule, 0), n))
         return obs, ctx
